@@ -90,7 +90,9 @@ Definition mint_to_collector (s : st) (x ts : Z) : st :=
 (** EndBlocker at block time [ts] (Unix ms) with [bonded] tokens in the bonded
     pool.  [None] = panic. *)
 Definition end_blocker (s : st) (ts bonded : Z) : option st :=
-  if negb (enabled s) then Some s else
+  (* while minting is off the reference timestamp is forgotten (since 81b5da1): the first block after a
+     re-activation only records its time *)
+  if negb (enabled s) then Some (set_prev s 0) else
   if prev_ts s =? 0 then Some (set_prev s ts) else
   let yr := year_ms (year_of_ms ts) in
   if negb (mint_fits s ts bonded yr) then None else
